@@ -180,9 +180,34 @@ func runC12(c *Ctx) {
 		eq := (b.Op == token.EQL) == (f.Kind == "true")
 		return eq == wantEqual
 	}
-	factIs := func(from *ssa.BasicBlock, si int, callee string, idx int, kind string) bool {
+	var factIs func(from *ssa.BasicBlock, si int, callee string, idx int, kind string) bool
+	factIs = func(from *ssa.BasicBlock, si int, callee string, idx int, kind string) bool {
 		f := edgeFactOf(from, si)
-		return f != nil && f.Kind == kind && isResultOfCall(f.V, callee, idx)
+		if f == nil {
+			return false
+		}
+		if f.Kind == kind && isResultOfCall(f.V, callee, idx) {
+			return true
+		}
+		// the test sits in a part that reports it through its error: on the part's nil-error edge the fact holds when no
+		// success return of the part is reachable around the fact's own edge
+		if f.Kind != "nil" {
+			return false
+		}
+		ex, ok := stripConv(f.V).(*ssa.Extract)
+		if !ok {
+			return false
+		}
+		hc, ok := ex.Tuple.(*ssa.Call)
+		if !ok {
+			return false
+		}
+		h := hc.Call.StaticCallee()
+		if h == nil || len(h.Blocks) == 0 || h.Object() == nil || h.Object().Exported() || fnPkgPath(h) != fnPkgPath(from.Parent()) || ex.Index != h.Signature.Results().Len()-1 {
+			return false
+		}
+		q := &PathQuery{Fn: h, EdgeBarrier: func(b2 *ssa.BasicBlock, s2 int) bool { return factIs(b2, s2, callee, idx, kind) }, Target: p.nonErrorReturn()}
+		return len(callsNamed(h, callee)) > 0 && len(q.From(nil)) == 0
 	}
 	if lo != nil {
 		for _, w := range callsNamed(lo, "lockOutput") {
